@@ -3,6 +3,7 @@ package props
 import (
 	"fmt"
 	"go/ast"
+	"go/token"
 	"go/types"
 
 	"golang.org/x/tools/go/ssa"
@@ -218,7 +219,103 @@ func c21Cancel(p *an.Prog, r *an.R) {
 		}
 		return true
 	})
+	// helpers that poll the context: `func done(ctx) bool { select { case <-ctx.Done(): return true; default: return false } }`
+	// or `return ctx.Err() != nil`
+	isDoneWrapper := func(c *ast.CallExpr) bool {
+		fn := an.Callee(info, c)
+		if fn == nil || fn.Pkg() == nil || !an.InModule(fn.Pkg()) {
+			return false
+		}
+		hd := p.Decl(fn)
+		if hd == nil || hd.Decl.Body == nil {
+			return false
+		}
+		hi := hd.Pkg.TypesInfo
+		// the argument bound to the helper's context parameter must be our context
+		ctxIdx := -1
+		k := 0
+		var hctx types.Object
+		for _, f := range hd.Decl.Type.Params.List {
+			for _, nm := range f.Names {
+				if hi.TypeOf(f.Type).String() == "context.Context" {
+					ctxIdx = k
+					hctx = hi.ObjectOf(nm)
+				}
+				k++
+			}
+		}
+		if ctxIdx < 0 || ctxIdx >= len(c.Args) || !an.UsesObj(info, c.Args[ctxIdx], ctxObj) {
+			return false
+		}
+		good, trues := true, 0
+		var stack []ast.Node
+		ast.Inspect(hd.Decl.Body, func(n ast.Node) bool {
+			if n == nil {
+				stack = stack[:len(stack)-1]
+				return true
+			}
+			stack = append(stack, n)
+			rs, ok := n.(*ast.ReturnStmt)
+			if !ok {
+				return true
+			}
+			if len(rs.Results) != 1 {
+				good = false
+				return true
+			}
+			res := ast.Unparen(rs.Results[0])
+			if tv := hi.Types[res]; tv.Value != nil {
+				if tv.Value.String() == "true" {
+					trues++
+					inDone := false
+					for i := len(stack) - 1; i >= 0; i-- {
+						if cc, ok := stack[i].(*ast.CommClause); ok && cc.Comm != nil {
+							ast.Inspect(cc.Comm, func(m ast.Node) bool {
+								if dc, ok := m.(*ast.CallExpr); ok {
+									if se, ok := ast.Unparen(dc.Fun).(*ast.SelectorExpr); ok && se.Sel.Name == "Done" && an.UsesObj(hi, se.X, hctx) {
+										inDone = true
+									}
+								}
+								return true
+							})
+						}
+					}
+					if !inDone {
+						good = false
+					}
+				}
+				return true
+			}
+			// ctx.Err() != nil
+			if be, ok := res.(*ast.BinaryExpr); ok && be.Op == token.NEQ && hi.Types[be.Y].IsNil() {
+				if ec, ok := ast.Unparen(be.X).(*ast.CallExpr); ok {
+					if se, ok := ast.Unparen(ec.Fun).(*ast.SelectorExpr); ok && se.Sel.Name == "Err" && an.UsesObj(hi, se.X, hctx) {
+						trues++
+						return true
+					}
+				}
+			}
+			good = false
+			return true
+		})
+		return good && trues > 0
+	}
+	ast.Inspect(d.Decl.Body, func(n ast.Node) bool {
+		as, ok := n.(*ast.AssignStmt)
+		if !ok || len(as.Lhs) != 1 || len(as.Rhs) != 1 {
+			return true
+		}
+		if c, ok := ast.Unparen(as.Rhs[0]).(*ast.CallExpr); ok && isDoneWrapper(c) {
+			if id, ok := as.Lhs[0].(*ast.Ident); ok {
+				cancelVars[info.ObjectOf(id)] = true
+			}
+		}
+		return true
+	})
 	observes := func(e ast.Expr, truth bool) bool {
+		if c, ok := ast.Unparen(e).(*ast.CallExpr); ok && isDoneWrapper(c) {
+			return truth
+		}
 		// atom is a cancel variable (true = cancelled) or ctx.Err() != nil
 		if id, ok := ast.Unparen(e).(*ast.Ident); ok && cancelVars[info.ObjectOf(id)] {
 			return truth
